@@ -55,6 +55,10 @@ PLANS = {
     "faults": [
         ("ub", "dbg", "S", (3, 250), (8, 1200)), ("bb", "dbg", "S", (1, 250), (4, 1200)), ("ub", "asan", "S", (1, 170), (3, 600)),
     ],
+    # sink throws inside / at the trigger of a backtrace replay (enumerated per (sink, write call, sink order))
+    "btfaults": [
+        ("ub", "dbg", "S", (1, 120), (3, 500)), ("bb", "dbg", "S", (1, 60), (2, 300)), ("ub", "asan", "S", (1, 60), (2, 300)),
+    ],
     "drop": [
         ("bd", "dbg", "S", (3, 300), (8, 1500)), ("ud", "dbg", "S", (2, 300), (6, 1500)),
         ("bd", "dbg", "F", (2, 60), (5, 250)), ("ud", "dbg", "F", (1, 60), (4, 250)), ("bd", "rel", "F", (1, 60), (3, 250)),
